@@ -226,7 +226,7 @@ def run(ctx):
         mon = HistoryMonitor(ctx, fl)
         mon.install(probe)
         for i, rnd in ctx.cases("engines", nengines):
-            spec = E.gen_engine(rnd, activations=("General",), d=3, kinds=("integral", "ts", "ts", "tsukamoto", "inverse"), resolutions=[2, 5, 10, 37, 100], free_weights=True, share_defuzzifier=True)
+            spec = E.gen_engine(rnd, activations=("General",), d=3, kinds=("integral", "ts", "ts", "tsukamoto", "inverse"), resolutions=[2, 5, 10, 37, 100], free_weights=True, share_defuzzifier=True, routes=True)
             for o in spec["outputs"]:
                 o["lock_previous"] = False
             factory = lambda spec=spec: E.build(fl, spec)  # noqa: E731
